@@ -2,6 +2,7 @@ import Flowjaxv.Proofs.NetMassMeas
 import Flowjaxv.Proofs.Params
 import Flowjaxv.Proofs.Rqs
 import Flowjaxv.Model.FlowsPre
+import Flowjaxv.Proofs.Flows
 /-!
 # Joint measurability of the rational-quadratic-spline transformer family (C04, Coupling / MaskedAutoregressive)
 
@@ -374,5 +375,79 @@ theorem measurable_rqs_fwdLd {xs ys ds : A → List ℝ} (hx : MeasL xs) (hy : M
   exact hlog.comp (measurable_rqs_derivative hx hy hd iv hxm)
 
 end spline
+
+/-! ## the premade flows' spline family `Flows.rqsFamily cfg init` over a measurable parameter row -/
+section family
+variable {A : Type} [MeasurableSpace A]
+
+/-- the three parameter vectors of `Flows.rqsSpline cfg init (row a)` are lists of measurable functions of `a` -/
+theorem rqsSpline_measL (cfg : Flows.RqsCfg ℝ) (init : List ℝ) {row : A → List ℝ} (hrow : MeasL row) :
+    MeasL (fun a => (Flows.rqsSpline cfg init (row a)).x_pos) ∧
+    MeasL (fun a => (Flows.rqsSpline cfg init (row a)).y_pos) ∧
+    MeasL (fun a => (Flows.rqsSpline cfg init (row a)).derivatives) := by
+  have hraw := hrow.addInit init
+  exact ⟨(hraw.take cfg.knots).realToIncreasing cfg.interval cfg.softmax_adjust,
+    ((hraw.drop cfg.knots).take cfg.knots).realToIncreasing cfg.interval cfg.softmax_adjust,
+    (hraw.drop (2 * cfg.knots)).rqsDerivatives cfg.min_derivative⟩
+
+/-- **joint measurability of the spline family**: for every measurable parameter row `row : A → List ℝ` (a fixed list of
+measurable functions), the forward map, the inverse map and the inverse log-det of `Flows.rqsFamily cfg init (row a)` at `t`
+are measurable functions of `(a, t)` — every `cfg`, every `init`; no well-formedness needed -/
+theorem rqsFamily_joint_meas (cfg : Flows.RqsCfg ℝ) (init : List ℝ) {row : A → List ℝ} (hrow : MeasL row) :
+    (Measurable fun p : A × ℝ => (Flows.rqsFamily cfg init (row p.1)).fwd p.2 ()) ∧
+    (Measurable fun p : A × ℝ => (Flows.rqsFamily cfg init (row p.1)).inv p.2 ()) ∧
+    (Measurable fun p : A × ℝ => ((Flows.rqsFamily cfg init (row p.1)).invLd p.2 ()).2) := by
+  obtain ⟨hx, hy, hd⟩ := rqsSpline_measL cfg init (hrow.comp (Prod.fst : A × ℝ → A) measurable_fst)
+  exact ⟨measurable_rqs_transform hx hy hd cfg.interval measurable_snd,
+    measurable_rqs_inverse hx hy hd cfg.interval measurable_snd,
+    measurable_rqs_invLd hx hy hd cfg.interval measurable_snd⟩
+
+end family
+
+/-! ## `CouplingMeas` / `MafMeas` for the spline family, and the layers -/
+section layers
+
+/-- **`CouplingMeas` for the spline family**: every conditioner continuous in the first block with constant output length
+`(n − d)·np`, every spline configuration, every `init`, every condition -/
+theorem coupling_spline_meas (d n np : ℕ) (cnd : List ℝ → List ℝ) (cfg : Flows.RqsCfg ℝ) (init : List ℝ) (c : List ℝ)
+    (hc : ContC (fun w : Fin n → ℝ => cnd ((List.ofFn w).take d ++ c)))
+    (hlen : ∀ z, (cnd z).length = (n - d) * np) :
+    CouplingMeas d n cnd (Flows.rqsFamily cfg init) c := by
+  have h : ∀ k, k < n - d → _ := fun k hk =>
+    rqsFamily_joint_meas cfg init (rowAt_contC d n np cnd c hc hlen k hk).measL
+  exact ⟨fun k hk => (h k hk).1, fun k hk => (h k hk).2.1, fun k hk => (h k hk).2.2⟩
+
+/-- **`MafMeas` for the spline family**: every well-shaped masked network with a continuous activation -/
+theorem maf_spline_meas (N : MafNet ℝ) (hN : N.WellShaped) (hact : Continuous N.act) (cfg : Flows.RqsCfg ℝ)
+    (init : List ℝ) (c : List ℝ) : MafMeas N (Flows.rqsFamily cfg init) c := by
+  have h : ∀ i, i < N.dim → _ := fun i hi =>
+    rqsFamily_joint_meas cfg init (mafRow_contC N hN hact c i hi).measL
+  exact ⟨fun i hi => (h i hi).1, fun i hi => (h i hi).2.1, fun i hi => (h i hi).2.2⟩
+
+/-- the one-dimensional layer fact for every member of the family (`FlowsPf.RqsCfgOK`: `knots ≥ 1`, `init` of length
+`3·knots + 2`, `lo < hi`, `softmax_adjust ≥ 0`, `min_derivative ≥ 0`) -/
+theorem rqsFamily_lawOK {cfg : Flows.RqsCfg ℝ} {init : List ℝ} (h : FlowsPf.RqsCfgOK cfg init) (ps : List ℝ) :
+    Mass.LawOK volume (Flows.rqsFamily cfg init ps) () :=
+  (Mass.rqs_fwdJac (FlowsPf.rqsFamily_wf h ps) ()).lawOK
+
+/-- **the spline coupling layer preserves mass and its sampler follows its density, both orientations** -/
+theorem coupling_spline_layer_meas (d n np : ℕ) (hdn : d ≤ n) (cnd : List ℝ → List ℝ) {cfg : Flows.RqsCfg ℝ}
+    {init : List ℝ} (hcfg : FlowsPf.RqsCfgOK cfg init) (c : List ℝ)
+    (hc : ContC (fun w : Fin n → ℝ => cnd ((List.ofFn w).take d ++ c)))
+    (hlen : ∀ z, (cnd z).length = (n - d) * np) :
+    LayerOK (liftBij n (couplingBij d cnd (Flows.rqsFamily cfg init))) c ∧
+    LayerOK (Gen.Invert.mk (liftBij n (couplingBij d cnd (Flows.rqsFamily cfg init)))).toBij c :=
+  coupling_layer_meas d n cnd (Flows.rqsFamily cfg init) hdn (FlowsPf.rqsFamily_lawful hcfg)
+    (FlowsPf.rqsFamily_ldAntisym hcfg) (rqsFamily_lawOK hcfg) c (coupling_spline_meas d n np cnd cfg init c hc hlen)
+
+/-- **the spline masked autoregressive layer**, both orientations -/
+theorem maf_spline_layer_meas (N : MafNet ℝ) (hN : N.WellShaped) (hact : Continuous N.act) {cfg : Flows.RqsCfg ℝ}
+    {init : List ℝ} (hcfg : FlowsPf.RqsCfgOK cfg init) (c : List ℝ) :
+    LayerOK (liftBij N.dim (mafBij N (Flows.rqsFamily cfg init))) c ∧
+    LayerOK (Gen.Invert.mk (liftBij N.dim (mafBij N (Flows.rqsFamily cfg init)))).toBij c :=
+  maf_layer_meas N (Flows.rqsFamily cfg init) hN (FlowsPf.rqsFamily_lawful hcfg)
+    (FlowsPf.rqsFamily_ldAntisym hcfg) (rqsFamily_lawOK hcfg) c (maf_spline_meas N hN hact cfg init c)
+
+end layers
 
 end NetMass
